@@ -175,6 +175,11 @@ def check_validate(ctx, node):
                 raise ctx.err(node, 'validate() delegates to another object')
 
 
+def copy_node(n):
+    import copy
+    return copy.deepcopy(n)
+
+
 def narrow(guard, op, code, negate=False):
     lo, hi = guard
     if (op == '<') != negate:
@@ -195,6 +200,7 @@ class Kinds:
         self.classes = classes            # name -> class object, the 105 structure classes
         self.primitives = importlib.import_module('kmip.core.primitives')
         self.enums = importlib.import_module('kmip.core.enums')
+        self.stubs = {}
 
     def struct_owner(self, ctx, node, obj):
         t = type(obj)
@@ -202,6 +208,13 @@ class Kinds:
         wr = next((k for k in t.__mro__ if 'write' in k.__dict__), None)
         if rd is None or rd is not wr:
             raise ctx.err(node, 'class %s takes read and write from different classes' % t.__name__)
+        if rd is self.primitives.Base:
+            # a Struct subclass without read/write of its own (contents.MessageExtension): Base.read consumes the 8 header
+            # bytes only and Base.write emits the header only.  As the LAST item of a structure that checks is_oversized
+            # this behaves exactly like a structure without items that checks is_oversized (any body byte is refused,
+            # by the enclosing check in the code, by the stub's own check in the model); translate_class verifies the position.
+            self.stubs[t.__name__] = t
+            return t.__name__
         if self.classes.get(rd.__name__) is not rd:
             raise ctx.err(node, 'class %s: read/write owner %s is not a translated class' % (t.__name__, rd.__name__))
         return rd.__name__
@@ -249,6 +262,7 @@ class ReadWalker:
         self.local_lists = {}       # local list variable -> items appended through it
         self.flags = set()
         self.pending = {}           # constructed, not yet read (old style: construct all, then read all)
+        self.attr_of = {}           # field -> raw attribute name on self
         self.minver = None          # class-level refusal `if kmip_version < V: raise VersionNotSupported`
 
     # -- recognisers
@@ -314,6 +328,176 @@ class ReadWalker:
             field = f[0]
         self.items.append({'field': field, 'tag': tag, 'kind': kind, 'lo': guard[0], 'hi': guard[1],
                            'mult': mult, 'line': node.lineno})
+        if not isinstance(field_node, str) and _self_attr(field_node):
+            self.attr_of[field] = _self_attr(field_node)
+
+    # ------------------------------------------------------------------ dispatch on an earlier field
+    def decoded_fields_in(self, nodes):
+        """indices of the already decoded items whose attribute is read by the given statements"""
+        idx = set()
+        for b in nodes:
+            for n in ast.walk(b):
+                a = _self_attr(n)
+                if a and isinstance(getattr(n, 'ctx', None), ast.Load):
+                    f = self.ctx.field_of(n)
+                    for k, it in enumerate(self.items):
+                        if f and it['field'] == f[0]:
+                            idx.add(k)
+        return sorted(idx)
+
+    def touches_stream(self, nodes):
+        return any(_is_name(n, self.buf) or _is_name(n, self.instream) for b in nodes for n in ast.walk(b))
+
+    def dispatch_table(self, node, block, product, ix, guard):
+        """Run the statements `block` (which choose the class of the next item from the already decoded item number
+        ix) once per possible key value and per version, on a fresh instance whose key attribute holds that value;
+        `product` is the expression that then holds the object to be read.  -> rows [(key, tag, kind)], dropped keys"""
+        import enum as _enum
+        key_item = self.items[ix]
+        kk = key_item['kind']
+        enums_mod = self.kinds.enums
+        if kk[0] == 'enum':
+            ecls = getattr(enums_mod, kk[1])
+            cands = [(('enum', m.value), m) for m in ecls]
+        elif kk == ('prim', 'PText'):
+            names = []
+            for nm in sorted(dir(enums_mod)):
+                e = getattr(enums_mod, nm)
+                if isinstance(e, type) and issubclass(e, _enum.Enum) and e.__module__ == enums_mod.__name__ and nm == 'AttributeType':
+                    names += [m.value for m in e]
+            names += ['x-custom', 'x-ID', 'x-Purpose', 'x-']
+            cands = [(('text', n), n) for n in names]
+        else:
+            raise self.ctx.err(node, 'dispatch on item %s of kind %s is not expressible' % (key_item['field'], '/'.join(kk)))
+        for it in self.items[:ix + 1]:
+            if (it['lo'], it['hi']) != (LO_MIN, HI_MAX):
+                raise self.ctx.err(node, 'dispatch key %s comes after a version-guarded item: its index among the active items is not fixed' % key_item['field'])
+        if key_item['mult'] not in ('Req', 'Opt'):
+            raise self.ctx.err(node, 'dispatch key %s is a repeated item' % key_item['field'])
+        key_attr = self.attr_of.get(key_item['field'])
+        if key_attr is None:
+            raise self.ctx.err(node, 'dispatch key %s is not stored in an attribute of self' % key_item['field'])
+        P = self.kinds.primitives
+        code = compile(ast.fix_missing_locations(ast.Module(body=[copy_node(b) for b in block], type_ignores=[])), self.ctx.file, 'exec')
+        pcode = compile(ast.fix_missing_locations(ast.Expression(copy_node(product))), self.ctx.file, 'eval')
+        versions = [v for v in sorted(VERSION_CODES.values()) if guard[0] <= v < guard[1]]
+        vmem = {code_: getattr(enums_mod.KMIPVersion, nm) for nm, code_ in VERSION_CODES.items()}
+        rows, dropped = [], {}
+        for key, pyval in cands:
+            results = set()
+            for v in versions:
+                try:
+                    obj = self.ctx.cls()
+                    if kk[0] == 'enum':
+                        prim = P.Enumeration(ecls, pyval, tag=enums_mod.Tags(key_item['tag']))
+                    else:
+                        prim = P.TextString(pyval, tag=enums_mod.Tags(key_item['tag']))
+                    setattr(obj, key_attr, prim)
+                    ns = dict(self.ctx.mod.__dict__)
+                    ns.update({'self': obj, 'kmip_version': vmem[v]})
+                    exec(code, ns)
+                    prod = eval(pcode, ns)
+                    if prod is None:
+                        raise ValueError('no product')
+                    results.add(self.kinds.classify(self.ctx, node, prod))
+                except Untranslatable as e:
+                    results.add(('untranslatable', e.msg))
+                except Exception as e:
+                    results.add(('refused', type(e).__name__))
+            if len(results) != 1:
+                raise self.ctx.err(node, 'dispatch on %s=%r gives different items under different versions: %s' % (key_item['field'], pyval, sorted(map(str, results))))
+            r = next(iter(results))
+            if r[0] in ('untranslatable', 'refused'):
+                dropped[str(key[1])] = '%s: %s' % r
+            else:
+                rows.append((key, r[0], r[1]))
+        if not rows:
+            raise self.ctx.err(node, 'dispatch on %s: no key yields a translatable item (%s)' % (key_item['field'], list(dropped.items())[:3]))
+        return rows, dropped
+
+    def add_dispatched(self, node, target, block, product, guard, mult, skip, tested_tag=None):
+        if self.touches_stream(block):
+            raise self.ctx.err(node, 'statements choosing the class of %s read from the stream' % _dump(target))
+        keys = self.decoded_fields_in(block)
+        if len(keys) != 1:
+            raise self.ctx.err(node, 'the class of %s depends on %d earlier items, expected exactly one' % (_dump(target), len(keys)))
+        rows, dropped = self.dispatch_table(node, block, product, keys[0], guard)
+        if tested_tag is not None and any(t != tested_tag for _, t, _ in rows):
+            raise self.ctx.err(node, 'is_tag_next tests tag %#x but a dispatched item carries another tag' % tested_tag)
+        self.add(node, target, rows[0][1], rows[0][2], guard, mult)
+        it = self.items[-1]
+        it['by'] = {'ix': keys[0], 'skip_if_absent': bool(skip), 'key_field': self.items[keys[0]]['field'],
+                    'table': [[list(k), t, list(kd)] for k, t, kd in rows], 'dropped': dropped}
+        self.flags.add('dispatch')
+
+    def try_dispatch_span(self, stmts, start, guard):
+        """F1: <statements that mention an earlier item, none touching the stream>; self.F.read(buf, ...)  -> next index"""
+        for j in range(start, min(len(stmts), start + 14)):
+            st = stmts[j]
+            try:
+                rc = self.read_call(st)
+            except Untranslatable:
+                rc = None
+            if rc is not None and _self_attr(rc[0]) and j > start:
+                block = stmts[start:j]
+                if self.touches_stream(block) or not self.decoded_fields_in(block):
+                    return None
+                if not rc[1]:
+                    raise self.ctx.err(st, 'dispatched item read without kmip_version=kmip_version')
+                self.add_dispatched(stmts[start], rc[0], block, rc[0], guard, 'Req', False)
+                return j + 1
+            if self.touches_stream([st]):
+                return None
+        return None
+
+    def try_dispatch_if_tag(self, s, tag, guard):
+        """F2: if self.is_tag_next(T, buf): <choose class from an earlier item>; self.F.read(buf, ...) [else: raise]"""
+        body = s.body
+        if len(body) < 2:
+            return False
+        try:
+            rc = self.read_call(body[-1])
+        except Untranslatable:
+            return False
+        if rc is None or not _self_attr(rc[0]) or not self.decoded_fields_in(body[:-1]):
+            return False
+        if not s.orelse:
+            mult = 'Opt'
+        elif len(s.orelse) == 1 and isinstance(s.orelse[0], ast.Raise):
+            mult = 'Req'
+        else:
+            return False
+        self.add_dispatched(s, rc[0], body[:-1], rc[0], guard, mult, False, tested_tag=tag)
+        return True
+
+    def try_dispatch_if_present(self, s, guard):
+        """F3: if self.K is not None: x = <factory>(self.K...); if self.is_tag_next(x.tag, buf): self.F = x; self.F.read(buf, ...)"""
+        t = s.test
+        if not (isinstance(t, ast.Compare) and len(t.ops) == 1 and isinstance(t.ops[0], ast.IsNot)
+                and isinstance(t.comparators[0], ast.Constant) and t.comparators[0].value is None and _self_attr(t.left)) or s.orelse:
+            return False
+        keys = self.decoded_fields_in([t.left])
+        if len(keys) != 1 or len(s.body) != 2:
+            return False
+        a, inner = s.body
+        if not (isinstance(a, ast.Assign) and len(a.targets) == 1 and isinstance(a.targets[0], ast.Name) and isinstance(inner, ast.If)
+                and not inner.orelse and len(inner.body) == 2):
+            return False
+        x = a.targets[0].id
+        it = inner.test
+        if not (isinstance(it, ast.Call) and _self_attr(it.func) == 'is_tag_next' and len(it.args) == 2 and _is_name(it.args[1], self.buf)
+                and isinstance(it.args[0], ast.Attribute) and it.args[0].attr == 'tag' and _is_name(it.args[0].value, x)):
+            return False
+        st, rd_ = inner.body
+        if not (isinstance(st, ast.Assign) and len(st.targets) == 1 and _self_attr(st.targets[0]) and _is_name(st.value, x)):
+            return False
+        rc = self.read_call(rd_)
+        if rc is None or ast.dump(rc[0]) != ast.dump(st.targets[0]).replace('Store()', 'Load()') or not rc[1]:
+            return False
+        if self.decoded_fields_in([a]) != keys:
+            return False
+        self.add_dispatched(s, st.targets[0], [a], ast.Name(id=x, ctx=ast.Load()), guard, 'Opt', True)
+        return True
 
     # -- the walk
     def walk(self, stmts, guard, top=False):
@@ -351,6 +535,10 @@ class ReadWalker:
                         self.walk(s.orelse, narrow(guard, *vt, negate=True))
                     continue
                 tag = self.tag_next_test(s.test)
+                if tag is not None and self.try_dispatch_if_tag(s, tag, guard):
+                    continue
+                if tag is None and self.try_dispatch_if_present(s, guard):
+                    continue
                 if tag is not None:
                     field_node, ctag, kind = self.construct_and_read(s.body, 'if is_tag_next')
                     if ctag != tag:
@@ -401,6 +589,12 @@ class ReadWalker:
                 else:
                     raise self.ctx.err(ap, 'append target not understood: %s' % _dump(lst))
                 continue
+            # the class of the next item chosen from an earlier item (attribute value by name, payload by operation, ...)
+            if isinstance(s, ast.Assign) and self.decoded_fields_in([s.value]) and not self.touches_stream([s]):
+                nxt = self.try_dispatch_span(stmts, i - 1, guard)
+                if nxt is not None:
+                    i = nxt
+                    continue
             # empty-list initialisation / storing a local list
             if isinstance(s, ast.Assign) and len(s.targets) == 1:
                 t, v = s.targets[0], s.value
@@ -824,6 +1018,10 @@ def translate_class(ctx, kinds):
     w = WriteWalker(ctx)
     w.ostream = method_args(ctx, wdef)
     w.walk(wdef.body, (LO_MIN, HI_MAX), top=True)
+    for k, it in enumerate(r.items):
+        if it['kind'][0] == 'struct' and it['kind'][1] in kinds.stubs:
+            if k != len(r.items) - 1 or not r.oversize or it['mult'] not in ('Req', 'Opt'):
+                raise ctx.err(rdef, 'item %s is a structure class without read/write of its own and is not the last item of a structure that checks is_oversized' % it['field'])
     if r.minver != w.minver:
         raise ctx.err(wdef, 'read() refuses versions below %s, write() below %s' % (r.minver, w.minver))
     minver = r.minver
@@ -858,8 +1056,19 @@ def translate_class(ctx, kinds):
         tag, kind = next(iter(sigs))
         if kind[0] == 'struct' and not it['has_v']:
             raise Untranslatable(ctx.file, it['line'], '%s: nested structure %s written without kmip_version' % (ctx.name, it['field']))
-        wr_items.append({'field': it['field'], 'tag': tag, 'kind': kind, 'lo': it['lo'], 'hi': it['hi'],
-                         'mult': it['mult'], 'test': it['test'], 'line': it['line']})
+        wi = {'field': it['field'], 'tag': tag, 'kind': kind, 'lo': it['lo'], 'hi': it['hi'],
+              'mult': it['mult'], 'test': it['test'], 'line': it['line']}
+        bys = [c['by'] for c in cands if c.get('by')]
+        if bys:
+            # the writer emits whatever object the attribute holds: its dispatch table is the reader's, its key index is
+            # the position, in WRITER order, of the key attribute
+            by = dict(bys[0])
+            pos = [k for k, w0 in enumerate(w.items) if w0['field'] == by['key_field']]
+            if len(pos) != 1:
+                raise Untranslatable(ctx.file, it['line'], '%s: the key %s of the dispatched item %s is not written exactly once' % (ctx.name, by['key_field'], it['field']))
+            by['ix'] = pos[0]
+            wi['by'] = by
+        wr_items.append(wi)
     return {'name': ctx.name, 'module': ctx.mod.__name__, 'file': ctx.file,
             'rd': r.items, 'wr': wr_items, 'oversize': r.oversize, 'minver': minver,
             'flags': sorted(r.flags | w.flags),
@@ -956,11 +1165,32 @@ def translate(repo):
             if n in excluded:
                 continue
             for it in c['rd'] + c['wr']:
+                if it.get('by'):
+                    keep = [row for row in it['by']['table'] if not (row[2][0] == 'struct' and row[2][1] in excluded)]
+                    if len(keep) != len(it['by']['table']):
+                        for row in it['by']['table']:
+                            if row not in keep:
+                                it['by']['dropped'][str(row[0][1])] = 'class %s is outside the translator' % row[2][1]
+                        it['by']['table'] = keep
+                        changed = True
+                        if keep:
+                            it['tag'], it['kind'] = keep[0][1], tuple(keep[0][2])
+                    if not keep:
+                        excluded[n] = 'every alternative of the dispatched item %s is outside the translator' % it['field']
+                        changed = True
+                        break
+                    continue
                 if it['kind'][0] == 'struct' and it['kind'][1] in excluded:
                     excluded[n] = 'contains ' + it['kind'][1]
                     changed = True
                     break
     included = [ok[n] for n in names if n in ok and n not in excluded]
+    used_stubs = sorted({it['kind'][1] for c in included for it in c['rd'] + c['wr'] if it['kind'][0] == 'struct' and it['kind'][1] in kinds.stubs})
+    for sn in used_stubs:
+        cls = kinds.stubs[sn]
+        classes[sn] = cls
+        included.append({'name': sn, 'module': cls.__module__, 'file': str(Path(inspect.getsourcefile(cls)).resolve().relative_to(repo.resolve())),
+                         'rd': [], 'wr': [], 'oversize': True, 'minver': None, 'flags': ['stub'], 'read_line': 0, 'write_line': 0})
     inc_names = {c['name'] for c in included}
     # listed although translatable: emitted beside E (not in it) when everything they refer to is in E
     listed = [ok[n] for n in names if n in ok and n in hand
@@ -999,8 +1229,20 @@ def coq_item(it):
         it['tag'], coq_kind(it['kind']), it['lo'], it['hi'], it['mult'], coq_by(it.get('by')))
 
 
+def used_enum_names(t):
+    names = set()
+    for c in t['classes']:
+        for it in c['rd'] + c['wr']:
+            if it['kind'][0] == 'enum':
+                names.add(it['kind'][1])
+            for row in (it.get('by') or {}).get('table', []):
+                if row[2][0] == 'enum':
+                    names.add(row[2][1])
+    return sorted(names)
+
+
 def render_coq(t):
-    used_enums = sorted({it['kind'][1] for c in t['classes'] for it in c['rd'] + c['wr'] if it['kind'][0] == 'enum'})
+    used_enums = used_enum_names(t)
     out = ['(* GENERATED from the read()/write() methods of kmip/core by translate/gen_schemas.py - do not edit.',
            '   %d classes under T; %d classes excluded (hand-modelled or containing a hand-modelled class). *)' % (
                len(t['classes']), len(t['excluded'])),
@@ -1037,7 +1279,7 @@ def render_coq(t):
 
 def render_json(t):
     enums = importlib.import_module('kmip.core.enums')
-    used_enums = sorted({it['kind'][1] for c in t['classes'] for it in c['rd'] + c['wr'] if it['kind'][0] == 'enum'})
+    used_enums = used_enum_names(t)
     def cj(c):
         return {'name': c['name'], 'module': c['module'], 'file': c['file'], 'default_tag': c['default_tag'],
                 'oversize': c['oversize'], 'minver': c['minver'], 'flags': c['flags'], 'read_line': c['read_line'],
